@@ -431,6 +431,12 @@ class Cases:
                     self.assign(st, path, s["lhs"], v, bi)
                     if rv.get("k") == "ref" and not rv["p"]["p"] and not s["lhs"]["p"]:
                         st["refsrc"][s["lhs"]["l"]] = rv["p"]["l"]      # `&mut iter`: which local the reference is to
+                    elif rv.get("k") == "ref" and rv["p"]["p"] == ["*"] and not s["lhs"]["p"] and rv["p"]["l"] in st["refsrc"]:
+                        st["refsrc"][s["lhs"]["l"]] = st["refsrc"][rv["p"]["l"]]      # a reborrow `&mut *r`
+                    elif rv.get("k") == "use" and not s["lhs"]["p"]:
+                        q_ = op_place(rv["a"])
+                        if q_ is not None and not q_["p"] and q_["l"] in st["refsrc"]:
+                            st["refsrc"][s["lhs"]["l"]] = st["refsrc"][q_["l"]]       # the reference handed on
                 t = blk.term
                 k = t["k"]
                 if k == "goto":
